@@ -180,7 +180,7 @@ func init() {
 	core.Register(&core.Check{
 		ID:          "C06",
 		Level:       "model_checking",
-		Rule:        "depth-bounded complete exploration of histories on one session over variables a, b, c: binding arrays of sizes 0,1,7,8,9,10,20 and maps of sizes 0,1,3,4,5,6,20, copying (b = a, nesting in arrays and maps, passing to functions, slicing, rest), mutating (index assignment incl. negative, append and merge with +, element deletion, repetition, mutation during iteration, mutation through a copy or an extracted element). No state merging (hidden sharing is not captured by any observable key). The alphabet also has containers whose representation is large while their length is small again (deleted entries, repeated literal keys, slices), values derived from one base twice (two merges, slice then append), and outer-scope containers handed on from inside functions (variadic arguments, literals, locals, parameters). After every operation the structural dump of every variable equals the reference evaluator's (immutable values, no size thresholds) and the error/no-error outcome agrees. Non-trivial = compared histories; distinct by operation sequence.",
+		Rule:        "depth-bounded complete exploration of histories on one session over variables a, b, c: binding arrays of sizes 0,1,7,8,9,10,20 and maps of sizes 0,1,3,4,5,6,20, copying (b = a, nesting in arrays and maps, passing to functions, slicing, rest), mutating (index assignment incl. negative, append and merge with +, element deletion, repetition, mutation during iteration, mutation through a copy or an extracted element). No state merging (hidden sharing is not captured by any observable key). The alphabet also has containers whose representation is large while their length is small again (deleted entries, repeated literal keys, slices), values derived from one base twice (two merges, slice then append), and outer-scope containers handed on from inside functions (variadic arguments, literals, locals, parameters). After every operation the structural dump of every variable equals the reference evaluator's (immutable values, no size thresholds) and the error/no-error outcome agrees. Non-trivial = compared histories; distinct by operation sequence. The operations include assignment of a variable from inside a function (through a reference) between two updates of it, and calls of library extensions that overwrite / normalise their argument list with an array as the whole list.",
 		Assume:      []string{"reference evaluator of internal/ref"},
 		QuickCap:    100 * time.Second,
 		ThoroughCap: 20 * time.Minute,
